@@ -24,10 +24,11 @@ META = {
     "level": "model_checking",
     "technique": "explicit-state BFS over open/close histories on a real Transport (prefix replay) + preemption-bounded schedule exploration of concurrent opens",
     "text": "All histories up to depth 6/8 of local opens (accepted/refused), peer opens (accepted/rejected), local/"
-            "peer/both closes and counter wrap-around, from counter values 0, 2^24-2, 2^24-1: every id handed out "
+            "peer/both closes, stray OPEN_FAILURE / OPEN_CONFIRMATION for an established channel and counter wrap-around, from counter values 0, 2^24-2, 2^24-1: every id handed out "
             "(Channel.chanid and the id announced in OPEN / OPEN_CONFIRMATION) is < 2^24 and differs from every "
             "channel that is still open (not closed by both sides). Plus all schedules with <=2/3 preemptions of a "
-            "local open racing a peer open. Both parts for every kind of peer-opened channel and role: server x "
+            "local open racing a peer open; plus [slow callback] a peer open parked inside check_channel_request (id reserved, "
+            "not registered) while a local open times out and two more succeed. Both parts for every kind of peer-opened channel and role: server x "
             "{session, direct-tcpip}, client x {x11, forwarded-tcpip, auth-agent} (each kind has its own "
             "lock/allocate branch in _parse_channel_open; BFS one level shallower for the four extra kinds).",
     "note": "un-started Transport with a collecting packetizer; the harness feeds handler functions the run loop "
@@ -37,7 +38,7 @@ META = {
 
 LIMIT = 1 << 24
 EVENTS = [("lopen",), ("lopen_fail",), ("popen_ok",), ("popen_rej",), ("close_both", 0), ("close_both", -1),
-          ("lclose", 0), ("pclose", 0), ("pclose", -1), ("wrap", 0), ("wrap", -1)]
+          ("lclose", 0), ("pclose", 0), ("pclose", -1), ("wrap", 0), ("wrap", -1), ("stray_fail", 0), ("stray_ok", -1)]
 
 
 # which side the transport plays and which kind of channel the peer opens: every kind has its own branch
@@ -220,6 +221,30 @@ class World:
                 st[1] = True
                 st[0] = True                   # a CLOSE from the peer is answered with our CLOSE
                 self._take_outbox()
+        elif kind in ("stray_fail", "stray_ok"):
+            # a misbehaving peer answers an open that is not pending: OPEN_FAILURE / OPEN_CONFIRMATION naming a
+            # channel that is established (and stays so - nothing was closed)
+            live = self.live()
+            if not live:
+                return
+            chan = live[ev[1]]
+            m = Message()
+            m.add_int(chan.chanid)
+            if kind == "stray_fail":
+                m.add_int(2)
+                m.add_string("no")
+                m.add_string("en")
+                m.rewind()
+                t._parse_channel_open_failure(m)
+            else:
+                m.add_int(999)
+                m.add_int(65536)
+                m.add_int(32768)
+                m.rewind()
+                t._parse_channel_open_success(m)
+            self._take_outbox()
+            if t._channels.get(chan.chanid) is not chan:
+                self.problems.append(("established-channel-unregistered-by-stray-reply", kind, chan.chanid))
         elif kind == "wrap":
             live = self.live()
             if not live:
@@ -377,6 +402,76 @@ def make_race_body(scn):
     return body
 
 
+def slowcb_item(item, acc):
+    """A peer-opened channel whose id is already reserved sits inside the application's
+    check_channel_request callback (not yet registered) while local opens come and go: one times out, two more
+    succeed; then the callback returns.  Deterministic (one execution per start counter): every id handed out
+    must differ from every other live or reserved one."""
+    tier, c0 = item
+
+    def body(s):
+        from paramiko import OPEN_SUCCEEDED
+        w = World(s, c0)
+        t = w.t
+        gate = vthreading.Event()
+        reserved = []
+
+        def slow(kind, chanid):
+            reserved.append(chanid)
+            gate.wait(60)
+            return OPEN_SUCCEEDED
+        w.server.check_channel_request = slow
+        res = {}
+
+        def timed_out_open():
+            try:
+                res["c"] = t.open_channel("session", timeout=0.5)
+            except Exception as e:  # noqa
+                res["e"] = type(e).__name__
+        a = vthreading.Thread(target=timed_out_open)
+        a.start()
+        s.quiesce()
+        first = None
+        for raw in w._take_outbox():
+            if raw[0] == MSG_CHANNEL_OPEN:
+                m = Message(raw[1:])
+                m.get_text()
+                first = m.get_int()
+        b = vthreading.Thread(target=lambda: t._parse_channel_open(peer_open_message("session", 555)))
+        b.start()
+        s.quiesce()
+        s.advance(1.0)          # the first local open times out, the peer open is still in the callback
+        s.quiesce()
+        a.join()
+        w.apply(("lopen",))
+        w.apply(("lopen",))
+        gate.set()
+        s.quiesce()
+        b.join()
+        ids = [c.chanid for c in w.chans] + [c.chanid for c in t.server_accepts]
+        out = {"timed_out_open_id": first, "reserved_by_peer_open": list(reserved), "live_ids": ids,
+               "problems": list(w.problems), "first_open": res}
+        t.active = False
+        return out
+    ex = S.run_once(body, horizon=S.EPOCH + 3600)
+    from vmc import install
+    install.cleanup_after_execution()
+    acc.ev()
+    acc.validated += 1
+    acc.nt(("slow-callback", c0))
+    if ex.outcome != "ok":
+        acc.violation("slow-callback:harness-outcome:%s" % ex.outcome, {"c0": c0, "err": repr(ex.error)[:300]},
+                      {"part": "slowcb", "c0": c0})
+        return
+    v = ex.value
+    ids = v["live_ids"]
+    if len(set(ids)) != len(ids) or v["problems"]:
+        acc.violation("id-already-live:local-open-while-peer-open-is-in-the-application-callback",
+                      {"c0": c0, **v}, {"part": "slowcb", "c0": c0})
+    elif len(acc.samples) < 6:
+        acc.sample({"part": "slow-callback", "counter0": c0, **{k: v[k] for k in ("timed_out_open_id", "reserved_by_peer_open", "live_ids")}})
+
+
 def judge_race(v):
     ids = [v["wire"].get("local"), v["wire"].get("peer")]
     if None in ids:
@@ -453,8 +548,11 @@ def main(tier):
                         continue
                     items.append(("race", tier, (c0, pre, wrap, fl), bound))
 
+    for c0 in (0, 7, LIMIT - 2, LIMIT - 1):
+        items.append(("slowcb", tier, c0))
+
     def run(item, acc):
-        (bfs_item if item[0] == "bfs" else race_item)(item[1:], acc)
+        {"bfs": bfs_item, "race": race_item, "slowcb": slowcb_item}[item[0]](item[1:], acc)
     ck.extra["bfs_depth"] = depth
     ck.extra["race_preemption_bound"] = bound
     ck.merge(core.pmap(items, run))
@@ -467,6 +565,15 @@ def main(tier):
 
 def replay(rec):
     r = rec["replay"]
+    if r["part"] == "slowcb":
+        class _A:
+            def __getattr__(self, k):
+                return lambda *a, **kw: print("  ", k, a[:2]) if k == "violation" else None
+            samples = []
+            validated = 0
+        a = _A()
+        slowcb_item(("quick", r["c0"]), a)
+        return 0
     if r["part"] == "bfs":
         ex = run_history(r["counter0"], [tuple(e) for e in r["history"]], tuple(r.get("flavour") or FLAVOURS[0]))
         print(ex.outcome, ex.error, ex.value)
